@@ -119,7 +119,7 @@ Proof.
   assert (U : forallb (fun p => upper_name (fst p)) (doc_fac c) = true).
   { rewrite forallb_forall. intros [n x] Hin. simpl.
     match goal with A : table_sub (doc_fac c) (fac_to_int c) = true |- _ => pose proof (table_sub_spec _ _ A _ _ Hin) as Q end.
-    apply assoc_str_In in Q. match goal with A : forallb _ (fac_to_int c) = true |- _ => rewrite forallb_forall in A; apply (A _ Q) end. }
+    apply assoc_str_In in Q. match goal with A : forallb (fun p => upper_name (fst p)) (fac_to_int c) = true |- _ => rewrite forallb_forall in A; apply (A _ Q) end. }
   rewrite (doc_syslog_strip _ _ U). erewrite table_equiv; [reflexivity| |]; assumption.
 Qed.
 
@@ -135,7 +135,7 @@ Proof.
   assert (U : forallb (fun p => upper_name (fst p)) (doc_lvl c) = true).
   { rewrite forallb_forall. intros [n x] Hin. simpl.
     match goal with A : table_sub (doc_lvl c) (lvl_to_int c) = true |- _ => pose proof (table_sub_spec _ _ A _ _ Hin) as Q end.
-    apply assoc_str_In in Q. match goal with A : forallb _ (lvl_to_int c) = true |- _ => rewrite forallb_forall in A; apply (A _ Q) end. }
+    apply assoc_str_In in Q. match goal with A : forallb (fun p => upper_name (fst p)) (lvl_to_int c) = true |- _ => rewrite forallb_forall in A; apply (A _ Q) end. }
   rewrite (doc_syslog_strip _ _ U). erewrite table_equiv; [reflexivity| |]; assumption.
 Qed.
 
@@ -149,7 +149,7 @@ Proof.
   assert (B : cfg_strips c = true /\ util_strips c = true).
   { unfold single_strip in S. destruct (cfg_strips c), (util_strips c); simpl in *; try discriminate; auto. }
   destruct B as [B1 B2].
-  match goal with A : forallb _ (fac_to_int c) = true |- _ => rewrite forallb_forall in A; pose proof (A _ Hin) as U end.
+  match goal with A : forallb (fun p => upper_name (fst p)) (fac_to_int c) = true |- _ => rewrite forallb_forall in A; pose proof (A _ Hin) as U end.
   simpl in U. unfold upper_name in U. rewrite !andb_true_iff in U. destruct U as [[U _] _]. apply list_eqb_eq in U.
   unfold parse_facility, syslog_key, strip_if. rewrite B1, B2, P, !map_app, U.
   change (map to_upper LOG_) with LOG_.
